@@ -29,16 +29,21 @@ import (
 //   legacy b  a document as an older gateway version wrote it: body {"v":b}, valid _sync / _vv, and attachment metadata
 //            still inside _sync (raw datastore WriteWithXattrs with the gateway's macro expansions; only when absent).
 //            The import listener migrates that metadata (MigrateAttachmentMetadata) when it is handed such an event.
+//   foreign b h  a document as another cluster's gateway wrote it and XDCR delivered it: body {"v":b}, valid _sync, and a
+//            version vector of shape h (c09Shapes: current version of a foreign source, merge / previous versions of other
+//            sources and possibly of this gateway's own source); raw WriteWithXattrs, only when absent
 //   feed k   delivery of the feed event for the document version that existed after op k (0 = before op 1)
 //            through importListener.ImportFeedEvent (ImportFromFeed)
 //   race g n x   gateway op g, with op x executed when the n-th WriteUpdateWithXattrs callback of g completes
-//            (between g's read/decision and its CAS write), via LeakyDataStore.SetUpdateCallback
+//            (between g's read/decision and its CAS write), via LeakyDataStore.SetUpdateCallback or -- second
+//            environment, stream faultstore-race -- via the onAttempt hook of the vFaultStore decorator
 
 type c09Op struct {
 	K string `json:"k"`
 	B int    `json:"b,omitempty"`
 	I int    `json:"i,omitempty"`
 	N int    `json:"n,omitempty"`
+	H int    `json:"h,omitempty"`
 	G *c09Op `json:"g,omitempty"`
 	X *c09Op `json:"x,omitempty"`
 }
@@ -55,6 +60,8 @@ func (o c09Op) coq() string {
 		return "(GwWrite " + cqI(o.B) + ")"
 	case "legacy":
 		return "(LegacyWrite " + cqI(o.B) + ")"
+	case "foreign":
+		return "(ForeignWrite " + cqI(o.B) + " " + c09Shapes[o.H%len(c09Shapes)].coq() + ")"
 	case "gdel":
 		return "GwDelete"
 	case "meta":
@@ -74,10 +81,72 @@ func (o c09Op) String() string {
 		return fmt.Sprintf("%s%d", o.K, o.B)
 	case "feed":
 		return fmt.Sprintf("feed%d", o.I)
+	case "foreign":
+		return fmt.Sprintf("foreign%d.%d", o.B, o.H)
 	case "race":
 		return fmt.Sprintf("race(%s,%d,%s)", o.G.String(), o.N, o.X.String())
 	}
 	return o.K
+}
+
+// version vectors of the hand-written foreign documents, in MODEL numbers: source id 0 = this gateway, other ids =
+// other clusters ("verifsrc<id>"); version numbers: 0 = an old version of this gateway's source, >= 1000 = versions
+// of other sources.  Real version value = (model number + 1) << 16 (far below any CAS).
+type c09HLV struct {
+	Src, Ver int
+	MV, PV   [][2]int
+}
+
+var c09Shapes = []c09HLV{
+	{Src: 7, Ver: 1001},
+	{Src: 7, Ver: 1001, PV: [][2]int{{8, 1002}}},
+	{Src: 7, Ver: 1001, PV: [][2]int{{0, 0}, {8, 1002}}},
+	{Src: 7, Ver: 1001, MV: [][2]int{{8, 1002}, {9, 1003}}, PV: [][2]int{{10, 1004}}},
+	{Src: 7, Ver: 1001, MV: [][2]int{{0, 0}, {8, 1002}}, PV: [][2]int{{9, 1003}}},
+	{Src: 7, Ver: 1001, MV: [][2]int{{8, 1005}}, PV: [][2]int{{8, 1002}, {9, 1003}}},
+	{Src: 7, Ver: 1001, MV: [][2]int{{7, 1000}, {8, 1002}}, PV: [][2]int{{0, 0}}},
+}
+
+func c09Alist(l [][2]int) string {
+	var xs []string
+	for _, p := range l {
+		xs = append(xs, fmt.Sprintf("(%d, %d)", p[0], p[1]))
+	}
+	return cqList(xs)
+}
+func (h c09HLV) coq() string {
+	return fmt.Sprintf("(mkVV %d %d 0 %s %s)", h.Src, h.Ver, c09Alist(h.MV), c09Alist(h.PV))
+}
+func c09RealVer(m int) uint64 { return uint64(m+1) << 16 }
+func c09ModelVer(v uint64) int {
+	if v&0xffff == 0 && v>>16 >= 1 && v>>16 < 1<<20 {
+		return int(v>>16) - 1
+	}
+	return 9999
+}
+func (e *c09Env) realSrc(m int) string {
+	if m == 0 {
+		return e.db.EncodedSourceID
+	}
+	return fmt.Sprintf("verifsrc%d", m)
+}
+func (e *c09Env) modelSrc(src string) int {
+	if src == e.db.EncodedSourceID {
+		return 0
+	}
+	var n int
+	if _, err := fmt.Sscanf(src, "verifsrc%d", &n); err == nil {
+		return n
+	}
+	return 98
+}
+func (e *c09Env) modelVersions(m HLVVersions) [][2]int {
+	var out [][2]int
+	for src, v := range m {
+		out = append(out, [2]int{e.modelSrc(src), c09ModelVer(v)})
+	}
+	sort.Slice(out, func(i, j int) bool { return out[i][0] < out[j][0] })
+	return out
 }
 
 type c09Rev struct {
@@ -109,6 +178,16 @@ type c09Obs struct {
 	Imports int  // ImportCount delta during the op
 	Fired   bool // race ops: the interposed op was executed (the gateway op reached its n-th update callback)
 	Att     bool // _sync still carries (pre-4.0) attachment metadata
+	CvSrc   int        // _vv.src: 0 this gateway, n = verifsrc<n>, 99 no _vv
+	CvK     int        // _vv.ver as a hand-made constant when the source is foreign, else 0
+	MV, PV  [][2]int   // merge / previous versions (source id, version constant), sorted by source
+	FSrc    bool       // _vv.src == _sync.rev.src
+	Cancel  int        // ImportCancelCAS delta during the op
+	Errs    int        // ImportErrorCount delta during the op
+	ver, cvcas, pcas uint64 // raw _vv.ver, _vv.cvCas, _mou.pCas
+	sgAll    bool      // SyncData.IsSGWrite / IsSGWriteXattrOnly / Document.IsSGWrite say "gateway write" for EVERY body and delete flag
+	evCas    uint64    // feed ops: cas of the delivered event
+	attempts []string  // fault-store races: what each attempt's update callback returned
 	seq     uint64
 	cas     uint64
 	revs    map[int]string
@@ -119,9 +198,10 @@ func (o c09Obs) coq() string {
 	for _, r := range o.Hist {
 		hs = append(hs, fmt.Sprintf("(R %d %d %s %d)", c09Nat(r.Gen), c09Nat(r.Parent), cqBool(r.Deleted), r.Body))
 	}
-	return fmt.Sprintf("(O %d %d %s %d %s %s %s %s %s %s %s %s %s %d %d %d %d %s %d %s %s)", o.St, o.Body, cqBool(o.HasSync), c09Nat(o.Cur), cqList(hs),
+	return fmt.Sprintf("(O %d %d %s %d %s %s %s %s %s %s %s %s %s %d %d %d %d %s %d %s %s %d %d %s %s %s %d %d)", o.St, o.Body, cqBool(o.HasSync), c09Nat(o.Cur), cqList(hs),
 		cqBool(o.FCas), cqBool(o.FCrc), cqBool(o.HasVV), cqBool(o.FCv), cqBool(o.FCvCas), cqBool(o.HasMou), cqBool(o.FMou), cqBool(o.FPcas),
-		o.VFull, o.VDoc, o.VXattr, o.Res, cqBool(o.SeqUp), o.Imports, cqBool(o.Fired), cqBool(o.Att))
+		o.VFull, o.VDoc, o.VXattr, o.Res, cqBool(o.SeqUp), o.Imports, cqBool(o.Fired), cqBool(o.Att),
+		o.CvSrc, o.CvK, c09Alist(o.MV), c09Alist(o.PV), cqBool(o.FSrc), o.Cancel, o.Errs)
 }
 
 // unparsable revision ids give negative generations: keep the Coq term well-formed (and mismatching)
@@ -147,6 +227,7 @@ type c09Env struct {
 	db       *Database
 	coll     *DatabaseCollectionWithUser
 	lds      *base.LeakyDataStore
+	fs       *vFaultStore // second environment: races are placed with the decorator's onAttempt hook
 	raw      base.DataStore
 	il       *importListener
 	rec      *vRecorder
@@ -154,6 +235,7 @@ type c09Env struct {
 	debug    bool
 	restamps int64
 	reruns   int
+	attempts []string // fault-store environment: what each attempt's update callback returned during the last race
 }
 
 const c09NBodies = 4
@@ -210,7 +292,7 @@ func c09RevTag(gen int, parent, revid string, deleted bool) int {
 
 func (e *c09Env) observe(key string, prev *c09Obs) c09Obs {
 	s := e.snap(key)
-	o := c09Obs{VFull: 2, VDoc: 2, VXattr: 3, revs: map[int]string{}}
+	o := c09Obs{VFull: 2, VDoc: 2, VXattr: 3, CvSrc: 99, revs: map[int]string{}}
 	if prev != nil {
 		o.seq = prev.seq
 	}
@@ -271,6 +353,28 @@ func (e *c09Env) observe(key string, prev *c09Obs) c09Obs {
 			if amb {
 				o.VXattr = 2
 			}
+			if o.FCas {
+				// stamped by a gateway write: ask every variant about EVERY body (and no body), delete flag, with / without _vv
+				o.sgAll = true
+				d3, d3err := e.coll.unmarshalDocumentWithXattrs(e.ctx, key, s.body, s.xattrs, s.cas, DocUnmarshalAll)
+				for b := 0; b <= c09NBodies+1; b++ {
+					body := c09Body(b)
+					if b == c09NBodies+1 {
+						body = nil
+					}
+					sg, _, _ := sd.IsSGWrite(e.ctx, s.cas, body, nil, cv)
+					sgNoCV, _, _ := sd.IsSGWrite(e.ctx, s.cas, body, nil, (*rawHLV)(nil))
+					dsg := false
+					if d3err == nil {
+						dsg, _, _ = d3.IsSGWrite(e.ctx, body)
+					}
+					o.sgAll = o.sgAll && sg && sgNoCV && dsg
+				}
+				for _, del := range []bool{false, true} {
+					x, amb := sd.IsSGWriteXattrOnly(e.ctx, s.cas, del, nil, cv)
+					o.sgAll = o.sgAll && x && !amb
+				}
+			}
 		}
 		d2, err := e.coll.unmarshalDocumentWithXattrs(e.ctx, key, s.body, s.xattrs, s.cas, DocUnmarshalAll)
 		if err == nil {
@@ -283,11 +387,20 @@ func (e *c09Env) observe(key string, prev *c09Obs) c09Obs {
 		o.FCvCas = doc.HLV.CurrentVersionCAS == s.cas
 		if o.HasSync {
 			o.FCv = doc.SyncData.CVEqual(*doc.HLV.ExtractCurrentVersionFromHLV())
+			o.FSrc = doc.HLV.SourceID == doc.SyncData.RevAndVersion.CurrentSource
 		}
+		o.CvSrc = e.modelSrc(doc.HLV.SourceID)
+		if o.CvSrc != 0 {
+			o.CvK = c09ModelVer(doc.HLV.Version)
+		}
+		o.ver, o.cvcas = doc.HLV.Version, doc.HLV.CurrentVersionCAS
+		o.MV = e.modelVersions(doc.HLV.MergeVersions)
+		o.PV = e.modelVersions(doc.HLV.PreviousVersions)
 	}
 	if doc.MetadataOnlyUpdate != nil {
 		o.HasMou = true
 		o.FMou = doc.MetadataOnlyUpdate.CAS() == s.cas
+		o.pcas = doc.MetadataOnlyUpdate.PreviousCAS()
 		if doc.HLV != nil {
 			o.FPcas = doc.MetadataOnlyUpdate.PreviousCAS() == doc.HLV.CurrentVersionCAS
 		}
@@ -316,6 +429,27 @@ func c09ErrCode(err error) int {
 		return 3
 	}
 	return 9
+}
+
+func c09ErrName(err error) string {
+	switch {
+	case err == nil:
+		return "write"
+	case err == base.ErrImportCasFailure:
+		return "casfail"
+	case err == base.ErrAlreadyImported:
+		return "already"
+	case err == base.ErrImportCancelled:
+		return "cancelled"
+	case err == base.ErrUpdateCancel:
+		return "updatecancel"
+	case err == base.ErrCasFailureShouldRetry:
+		return "retry"
+	}
+	if st, _ := base.ErrorAsHTTPStatus(err); st == 409 {
+		return "conflict"
+	}
+	return "error"
 }
 
 // build the feed event the import listener would receive for a document version
@@ -399,6 +533,51 @@ func (e *c09Env) exec(key string, op c09Op, events []c09Snap) int {
 			return 9
 		}
 		return 0
+	case "foreign":
+		if s := e.snap(key); s.exists {
+			return 3
+		}
+		sh := c09Shapes[op.H%len(c09Shapes)]
+		body := c09Body(op.B)
+		rev := CreateRevIDWithBytes(1, "", body)
+		seq, err := e.db.sequences.nextSequence(e.ctx)
+		if err != nil {
+			return 9
+		}
+		ver := base.CasToString(c09RealVer(sh.Ver))
+		sd := SyncData{
+			RevAndVersion:   channels.RevAndVersion{RevTreeID: rev, CurrentSource: e.realSrc(sh.Src), CurrentVersion: ver},
+			Sequence:        seq,
+			RecentSequences: []uint64{seq},
+			History:         RevTree{rev: &RevInfo{ID: rev}},
+			Cas:             expandMacroCASValueString,
+			Crc32c:          "0x00000000",
+		}
+		rawSync, err := base.JSONMarshal(sd)
+		if err != nil {
+			return 9
+		}
+		hlv := HybridLogicalVector{SourceID: e.realSrc(sh.Src), Version: c09RealVer(sh.Ver)}
+		for _, p := range sh.MV {
+			hlv.SetMergeVersion(e.realSrc(p[0]), c09RealVer(p[1]))
+		}
+		for _, p := range sh.PV {
+			hlv.SetPreviousVersion(e.realSrc(p[0]), c09RealVer(p[1]))
+		}
+		rawVV, err := base.JSONMarshal(hlv)
+		if err != nil || len(rawVV) < 2 {
+			return 9
+		}
+		rawVV = append([]byte(`{"cvCas":"0x0",`), rawVV[1:]...)
+		opts := &sgbucket.MutateInOptions{MacroExpansion: append(macroExpandSpec(base.SyncXattrName),
+			sgbucket.NewMacroExpansionSpec(xattrCurrentVersionCASPath(base.VvXattrName), sgbucket.MacroCas))}
+		if _, err := e.raw.WriteWithXattrs(e.ctx, key, 0, 0, body, map[string][]byte{base.SyncXattrName: rawSync, base.VvXattrName: rawVV}, nil, opts); err != nil {
+			if e.debug {
+				fmt.Printf("    foreign write error: %v\n", err)
+			}
+			return 9
+		}
+		return 0
 	case "touch":
 		s := e.snap(key)
 		if !s.exists || s.tomb {
@@ -463,6 +642,34 @@ func (e *c09Env) step(key string, op c09Op, events []c09Snap) (int, bool) {
 	count := 0
 	fired := false
 	inHook := false
+	if e.fs != nil {
+		// the decorator calls the hook after the update callback of every attempt (also of the nested on-demand import
+		// of a gateway write) with what that callback returned, before the compare-and-swap write; it is not re-entered
+		// by the writes of the interposed op
+		e.attempts = nil
+		e.fs.mu.Lock()
+		e.fs.onAttempt = func(k string, attempt int, cbErr error) error {
+			if k != key {
+				return nil
+			}
+			e.attempts = append(e.attempts, c09ErrName(cbErr))
+			if fired {
+				return nil
+			}
+			count++
+			if count == op.N {
+				fired = true
+				e.exec(key, *op.X, events)
+			}
+			return nil
+		}
+		e.fs.mu.Unlock()
+		res := e.exec(key, *op.G, events)
+		e.fs.mu.Lock()
+		e.fs.onAttempt = nil
+		e.fs.mu.Unlock()
+		return res, fired
+	}
 	e.lds.SetUpdateCallback(func(k string) {
 		if k != key || inHook || fired {
 			return
@@ -490,6 +697,8 @@ func (e *c09Env) run(ops []c09Op) (string, []c09Obs, []bool) {
 	var prev *c09Obs
 	for _, op := range ops {
 		imp0 := e.db.DbStats.SharedBucketImport().ImportCount.Value()
+		can0 := e.db.DbStats.SharedBucketImport().ImportCancelCAS.Value()
+		err0 := e.db.DbStats.SharedBucketImport().ImportErrorCount.Value()
 		rs0 := e.db.DbStats.Database().HLVVersionCASRetryCount.Value()
 		res, fired := e.step(key, op, events)
 		o := e.observe(key, prev)
@@ -498,6 +707,14 @@ func (e *c09Env) run(ops []c09Op) (string, []c09Obs, []bool) {
 			o.Res = res
 		}
 		o.Imports = int(e.db.DbStats.SharedBucketImport().ImportCount.Value() - imp0)
+		if op.K == "feed" && op.I >= 0 && op.I < len(events) {
+			o.evCas = events[op.I].cas
+		}
+		if op.K == "race" && e.fs != nil {
+			o.attempts = append([]string(nil), e.attempts...)
+		}
+		o.Cancel = int(e.db.DbStats.SharedBucketImport().ImportCancelCAS.Value() - can0)
+		o.Errs = int(e.db.DbStats.SharedBucketImport().ImportErrorCount.Value() - err0)
 		rs := e.db.DbStats.Database().HLVVersionCASRetryCount.Value() - rs0
 		restamped = append(restamped, rs > 0)
 		e.restamps += rs
@@ -533,14 +750,31 @@ func TestVerifC09(t *testing.T) {
 	il.collections[coll.GetCollectionID()] = *admin
 	e := &c09Env{t: t, ctx: ctx, db: db, coll: coll, lds: lds, raw: lds.GetUnderlyingDataStore(), il: il, rec: rec, debug: os.Getenv("C09_DEBUG") != ""}
 
+	// second environment: a plain (non-leaky) bucket whose collection datastore is decorated by vFaultStore; races are
+	// placed with its onAttempt hook, which also tells what every attempt's update callback returned
+	db2, ctx2 := SetupTestDBWithOptions(t, DatabaseContextOptions{})
+	defer db2.Close(ctx2)
+	coll2, ctx2 := GetSingleDatabaseCollectionWithUser(ctx2, t, db2)
+	raw2 := coll2.dataStore
+	fs := &vFaultStore{DataStore: raw2}
+	coll2.dataStore = fs
+	admin2 := &DatabaseCollectionWithUser{DatabaseCollection: coll2.DatabaseCollection, user: nil}
+	il2 := NewImportListener(ctx2, "verifc09fs", db2.DatabaseContext)
+	il2.collections[coll2.GetCollectionID()] = *admin2
+	e2 := &c09Env{t: t, ctx: ctx2, db: db2, coll: coll2, fs: fs, raw: raw2, il: il2, rec: rec, debug: e.debug}
+
 	if sc := os.Getenv("C09_SCRIPT"); sc != "" {
 		// debugging aid: run scripts such as "set1 read set2 feed1 read;put1 del read"
 		for _, line := range strings.Split(sc, ";") {
 			ops := c09ParseScript(line)
 			fmt.Printf("script: %s\n", line)
-			e.debug = true
-			key, _, rs := e.run(ops)
-			s := e.snap(key)
+			env := e
+			if os.Getenv("C09_FS") != "" {
+				env = e2
+			}
+			env.debug = true
+			key, _, rs := env.run(ops)
+			s := env.snap(key)
 			fmt.Printf("  final xattrs: %s restamped=%v\n", c09Dump(s), rs)
 		}
 		return
@@ -599,6 +833,32 @@ func TestVerifC09(t *testing.T) {
 			}
 		}
 	}
+	// documents replicated from another cluster (version vector with a foreign current version, merge and previous
+	// versions): every sequence of 2 ops after the foreign write for every vector shape, of 3 ops for two shapes
+	hl := []string{"set2", "del", "touch", "put3", "gdel", "meta", "read", "feedL", "feedP"}
+	for h := range c09Shapes {
+		pre := fmt.Sprintf("foreign1.%d", h)
+		c09Enum(hl, 2, func(toks []string) { e.runCase("exhaustive-hlv", c09Resolve(append([]string{pre}, toks...))) })
+		if h == 4 || vThorough() {
+			c09Enum(hl, 3, func(toks []string) { e.runCase("exhaustive-hlv", c09Resolve(append([]string{pre}, toks...))) })
+		}
+	}
+	// the same races placed by the fault-store decorator (second environment): an SDK write / delete / xattr touch
+	// landing between an import's (or a gateway write's) n-th update callback and its compare-and-swap write
+	fprefixes := []string{"set1", "put1 set2", "put1 del", "put1 gdel set2", "set1 read set2", "put1 set2 meta", "put1 touch",
+		"foreign1.1 set2", "foreign1.3 set2", "foreign1.4 del", "legacy1 set2", "put1 set1"}
+	fgs := []string{"read", "feedL", "feedP", "put3", "gdel", "meta"}
+	fxs := []string{"set4", "del", "touch", "set1"}
+	for _, pre := range fprefixes {
+		for _, g := range fgs {
+			for n := 1; n <= 2; n++ {
+				for _, x := range fxs {
+					toks := append(strings.Fields(pre), fmt.Sprintf("race:%s:%d:%s", g, n, x), "read", "feedL")
+					e2.runCase("faultstore-race", c09Resolve(toks))
+				}
+			}
+		}
+	}
 	rec.Extra("exhaustive", true)
 
 	// ---- (c) random: structured stream (mostly plain ops, feed indices near the end) and adversarial stream (races, stale
@@ -607,8 +867,10 @@ func TestVerifC09(t *testing.T) {
 	for i := 0; i < nStruct; i++ {
 		n := 4 + rnd.Intn(9)
 		var ops []c09Op
-		if rnd.Chance(30) {
+		if r := rnd.Intn(100); r < 25 {
 			ops = append(ops, c09Op{K: "legacy", B: 1 + rnd.Intn(c09NBodies)})
+		} else if r < 55 {
+			ops = append(ops, c09Op{K: "foreign", B: 1 + rnd.Intn(c09NBodies), H: rnd.Intn(len(c09Shapes))})
 		}
 		for len(ops) < n {
 			ops = append(ops, c09RandOp(rnd, len(ops), false))
@@ -619,16 +881,22 @@ func TestVerifC09(t *testing.T) {
 	for i := 0; i < nAdv; i++ {
 		n := 3 + rnd.Intn(8)
 		var ops []c09Op
-		if rnd.Chance(30) {
+		if r := rnd.Intn(100); r < 25 {
 			ops = append(ops, c09Op{K: "legacy", B: 1 + rnd.Intn(c09NBodies)})
+		} else if r < 55 {
+			ops = append(ops, c09Op{K: "foreign", B: 1 + rnd.Intn(c09NBodies), H: rnd.Intn(len(c09Shapes))})
 		}
 		for len(ops) < n {
 			ops = append(ops, c09RandOp(rnd, len(ops), true))
 		}
-		e.runCase("adversarial", ops)
+		if i%4 == 3 {
+			e2.runCase("adversarial-faultstore", ops)
+		} else {
+			e.runCase("adversarial", ops)
+		}
 	}
-	rec.Extra("restamp_reruns", e.reruns)
-	rec.Extra("restamps_seen", e.restamps)
+	rec.Extra("restamp_reruns", e.reruns+e2.reruns)
+	rec.Extra("restamps_seen", e.restamps+e2.restamps)
 }
 
 var c09Corpus = []string{
@@ -676,6 +944,18 @@ var c09Corpus = []string{
 	"legacy1 put2 feed1 meta feed1",
 	"legacy1 race:feed1:1:set2 read",
 	"set1 legacy2 read",
+	// documents replicated from another cluster: the import makes the SDK mutation the current version (own source,
+	// version = its cas), moves the foreign current version and the merge versions to the previous versions
+	"foreign1.0 read feed1 set2 read feed2 feed3",
+	"foreign1.1 set2 feed2 feed2 read put3 set4 read",
+	"foreign1.2 set2 read set3 read meta feed4",
+	"foreign1.3 del read set2 read",
+	"foreign1.4 put2 set3 read gdel",
+	"foreign1.5 set2 feed2 meta feed3 feed4 set3 feed6",
+	"foreign1.6 touch read set2 read",
+	"foreign1.3 set2 race:read:1:set3 read feed3",
+	"foreign1.4 set2 race:feed2:1:set3 read",
+	"set1 foreign2.0 read",
 }
 
 // enumerate all token sequences of exactly n symbols
@@ -780,6 +1060,18 @@ func c09RandOp(rnd *vRand, pos int, adversarial bool) c09Op {
 
 func c09IsImportOp(o c09Op) bool { return o.K == "read" || o.K == "feed" }
 func c09IsExt(o c09Op) bool      { return o.K == "set" || o.K == "del" }
+
+func c09SameVersions(a, b [][2]int) bool {
+	if len(a) != len(b) {
+		return false
+	}
+	for i := range a {
+		if a[i] != b[i] {
+			return false
+		}
+	}
+	return true
+}
 
 func c09SameHist(a, b []c09Rev) bool {
 	if len(a) != len(b) {
@@ -934,6 +1226,101 @@ func (e *c09Env) monitors(ops []c09Op, obs []c09Obs, desc map[string]any) bool {
 		if o.Imports > 1 && op.K != "race" {
 			e.rec.Fail("import_once", "double-import", in(i), fmt.Sprintf("imports=%d in one op", o.Imports))
 		}
+		// ---- deepening ----
+		// sgw_write_never_imported: an ACCEPTED gateway write (plain or raced) stamps _sync.cas with its own CAS, so every
+		// variant of the detection says "gateway write" for every body, delete flag and version vector
+		if o.Res == 0 && (g.K == "put" || g.K == "gdel") {
+			if !(o.HasSync && o.FCas && o.sgAll && o.VXattr == 1) {
+				e.rec.Fail("sgw_write_never_imported", "accepted-write-not-stamped", in(i), fmt.Sprintf("after %s: cas==_sync.cas %v, all variants for all bodies %v, xattr-only=%d", op.String(), o.FCas, o.sgAll, o.VXattr))
+			}
+		}
+		// import_hlv_dominates_previous / metadata_only_update_not_reimported: a single import by read or feed
+		if op.K != "race" && c09IsImportOp(g) && o.Imports == 1 && prev.St != 0 {
+			updated := !prev.HasVV || !(prev.FCvCas || prev.FMou)
+			bad := ""
+			switch {
+			case !o.HasVV:
+				bad = "no _vv after import"
+			case !o.FCv || !o.FSrc:
+				bad = "_sync.rev does not record the current version of _vv"
+			case updated && !(o.CvSrc == 0 && o.ver == prev.cas && o.cvcas == prev.cas && len(o.MV) == 0):
+				bad = fmt.Sprintf("imported mutation is not the current version: src=%d ver==cas %v cvCas==cas %v mv=%v", o.CvSrc, o.ver == prev.cas, o.cvcas == prev.cas, o.MV)
+			case !updated && !(o.CvSrc == prev.CvSrc && o.ver == prev.ver && c09SameVersions(o.MV, prev.MV) && c09SameVersions(o.PV, prev.PV)):
+				bad = "version vector changed although the mutation already was the current version"
+			}
+			if bad == "" && updated && prev.HasVV {
+				// dominance: every source the previous vector knew (GetValue order: cv, mv, pv) is still known, not older
+				known := map[int]int{}
+				for _, p := range prev.PV {
+					known[p[0]] = p[1]
+				}
+				for _, p := range prev.MV {
+					known[p[0]] = p[1]
+				}
+				if prev.CvSrc != 0 {
+					known[prev.CvSrc] = prev.CvK
+				}
+				now := map[int]int{}
+				for _, p := range o.PV {
+					now[p[0]] = p[1]
+				}
+				for src, v := range known {
+					if src == 0 {
+						continue // the own source is the new current version (version = cas, newer than anything recorded)
+					}
+					if nv, ok := now[src]; !ok || nv < v {
+						bad = fmt.Sprintf("source %d (version %d) of the previous vector is lost or moved back: pv=%v", src, v, o.PV)
+					}
+				}
+				if _, ok := now[0]; ok {
+					bad = fmt.Sprintf("own source is current version and previous version: pv=%v", o.PV)
+				}
+			}
+			if bad != "" {
+				e.rec.Fail("import_hlv_dominates_previous", "import-hlv", in(i), fmt.Sprintf("%s (previous cv src=%d k=%d mv=%v pv=%v)", bad, prev.CvSrc, prev.CvK, prev.MV, prev.PV))
+			}
+			wantP := prev.cas
+			if prev.FMou {
+				wantP = prev.pcas
+			}
+			if !(o.HasMou && o.FMou && o.pcas == wantP && o.FCas) {
+				e.rec.Fail("metadata_only_update_not_reimported", "import-mou", in(i), fmt.Sprintf("after import: _mou present %v, _mou.cas==cas %v, _mou.pCas as expected %v, _sync.cas==cas %v", o.HasMou, o.FMou, o.pcas == wantP, o.FCas))
+			}
+		}
+		// counters: a feed delivery imports, or cancels on CAS loss (only when the document moved on since the event),
+		// or does nothing; import errors never happen on these streams
+		if op.K != "race" && g.K == "feed" {
+			if o.Imports+o.Cancel+o.Errs > 1 {
+				e.rec.Fail("import_counters", "feed-counts", in(i), fmt.Sprintf("imports=%d cancelCAS=%d errors=%d for one delivery", o.Imports, o.Cancel, o.Errs))
+			}
+			if o.Cancel > 0 && o.evCas == prev.cas {
+				e.rec.Fail("import_counters", "cancel-cas-without-cas-change", in(i), "ImportCancelCAS counted although the event is the current version")
+			}
+		}
+		if o.Errs > 0 && op.K != "race" {
+			// (in a race an on-demand import may find the document deleted without xattrs: ErrEmptyDocument, counted)
+			e.rec.Fail("import_counters", "import-error", in(i), fmt.Sprintf("%s: ImportErrorCount +%d", op.String(), o.Errs))
+		}
+		// retry path (fault-store races): an SDK set landing between an import attempt's callback and its CAS write
+		if op.K == "race" && o.Fired && op.X.K == "set" && len(o.attempts) >= op.N {
+			at := o.attempts
+			switch g.K {
+			case "feed":
+				if at[op.N-1] == "write" && !(len(at) == op.N+1 && at[op.N] == "casfail" && o.Imports == 0 && o.Cancel == 1) {
+					e.rec.Fail("import_retry_path", "feed-import-cas-loss-not-cancelled", in(i), fmt.Sprintf("attempts=%v imports=%d cancelCAS=%d", at, o.Imports, o.Cancel))
+				}
+			case "read":
+				if at[op.N-1] == "write" && len(at) < op.N+1 {
+					e.rec.Fail("import_retry_path", "ondemand-import-no-retry", in(i), fmt.Sprintf("attempts=%v", at))
+				}
+				if o.Imports == 1 && !(len(o.Hist) > 0 && !o.Hist[0].Deleted && o.Hist[0].Body == op.X.B && o.Body == op.X.B) {
+					e.rec.Fail("import_retry_path", "ondemand-retry-stale-body", in(i), fmt.Sprintf("attempts=%v: imported revision %v, bucket body %d, interposed set %d", at, o.Hist, o.Body, op.X.B))
+				}
+			}
+		}
+		if op.K == "race" && o.Fired && op.X.K == "set" && g.K == "feed" && o.Imports > 0 && e.fs == nil {
+			e.rec.Fail("import_retry_path", "feed-import-after-cas-loss", in(i), fmt.Sprintf("imports=%d", o.Imports))
+		}
 		// latest_body_visible: after a successful read the current revision is for the bucket's body
 		if op.K != "race" && g.K == "read" && o.Res == 0 {
 			ok := o.HasSync && len(o.Hist) > 0 && o.VFull == 1
@@ -1015,6 +1402,9 @@ func c09ParseOp(tok string) c09Op {
 	case strings.HasPrefix(tok, "legacy"):
 		o.K = "legacy"
 		fmt.Sscanf(tok[6:], "%d", &o.B)
+	case strings.HasPrefix(tok, "foreign"):
+		o.K = "foreign"
+		fmt.Sscanf(tok[7:], "%d.%d", &o.B, &o.H)
 	case strings.HasPrefix(tok, "feed"):
 		o.K = "feed"
 		fmt.Sscanf(tok[4:], "%d", &o.I)
